@@ -34,6 +34,8 @@ pub trait FactoryModule:
         initial_supply: BigUint,
         minter: ManagedAddress,
     ) -> TokenId<Self::Api> {
+        self.require_not_paused();
+
         let sender = self.blockchain().get_caller();
         let deploy_salt = self.interchain_token_deploy_salt(&sender, &salt);
         let current_chain = ManagedBuffer::new();
